@@ -18,9 +18,10 @@
 (* labels for "loop test false" (m_exit) and "flag cleared" (m_clear).     *)
 (*                                                                         *)
 (* Named deviations (TRUE = as built, FALSE = repaired):                   *)
-(*   DevExitWindow  a thread's decision to exit (monitor: loop test false; *)
-(*                  Glue submission thread likewise) is not atomic with    *)
-(*                  the state `_start` tests (flag / liveness): a          *)
+(*   DevExitWindow  the monitor's decision to exit (loop test false;       *)
+(*                  the thread stays alive until stop() has returned) is   *)
+(*                  not atomic with the state `_start` tests (flag /       *)
+(*                  liveness): a                                           *)
 (*                  submission in the window starts nothing and is left    *)
 (*                  behind.  Repaired: submission and exit decision are    *)
 (*                  serialised by a lock.                                  *)
@@ -149,8 +150,9 @@ t_dec:         \* num_pending -= len(jobs)
     moving := {};
     goto t_wait;
   } else {
-g_test:        \* while self.is_running and self.pending_glue_jobs:
-    if (~DevExitWindow) { await lock = "none"; if (~(running /\ staged # {})) { lock := "stage" } };
+g_test:        \* while self.is_running and self.pending_glue_jobs: -- when false the function returns in
+               \* the same step (no statement follows the loop), so test and thread end are atomic at
+               \* statement granularity (CPython itself keeps is_alive() true a little longer: out of reach)
     if (running /\ staged # {}) {
 g_pop:         \* popleft(): the job is in neither container ...
       with (j \in staged) {
@@ -163,11 +165,10 @@ g_more:
       if (staged # {}) { goto g_pop };
 g_sleep:
       goto g_test;
-    };
-g_end:         \* thread ends
-    stAlive := FALSE;
-    if (~DevExitWindow) { lock := "none" };
-    goto t_idle;
+    } else {
+      stAlive := FALSE;
+      goto t_idle;
+    }
   }
 }
 
@@ -272,7 +273,7 @@ c_test == /\ pc[SCHED] = "c_test"
 c_gmon == /\ pc[SCHED] = "c_gmon"
           /\ IF ~MonAlive
                 THEN /\ Assert(FreeMon # {}, 
-                               "Failure of assertion at line 70, column 3 of macro called at line 88, column 27.")
+                               "Failure of assertion at line 71, column 3 of macro called at line 89, column 27.")
                      /\ /\ alive' = [alive EXCEPT ![NextMon] = TRUE]
                         /\ cur' = NextMon
                 ELSE /\ TRUE
@@ -300,7 +301,7 @@ c_set == /\ pc[SCHED] = "c_set"
 
 c_spawn == /\ pc[SCHED] = "c_spawn"
            /\ Assert(FreeMon # {}, 
-                     "Failure of assertion at line 70, column 3 of macro called at line 92, column 10.")
+                     "Failure of assertion at line 71, column 3 of macro called at line 93, column 10.")
            /\ /\ alive' = [alive EXCEPT ![NextMon] = TRUE]
               /\ cur' = NextMon
            /\ pc' = [pc EXCEPT ![SCHED] = "c_ret"]
@@ -478,19 +479,13 @@ t_dec == /\ pc[STAGE] = "t_dec"
                          snap >>
 
 g_test == /\ pc[STAGE] = "g_test"
-          /\ IF ~DevExitWindow
-                THEN /\ lock = "none"
-                     /\ IF ~(running /\ staged # {})
-                           THEN /\ lock' = "stage"
-                           ELSE /\ TRUE
-                                /\ lock' = lock
-                ELSE /\ TRUE
-                     /\ lock' = lock
           /\ IF running /\ staged # {}
                 THEN /\ pc' = [pc EXCEPT ![STAGE] = "g_pop"]
-                ELSE /\ pc' = [pc EXCEPT ![STAGE] = "g_end"]
+                     /\ UNCHANGED stAlive
+                ELSE /\ stAlive' = FALSE
+                     /\ pc' = [pc EXCEPT ![STAGE] = "t_idle"]
           /\ UNCHANGED << pending, staged, moving, running, alive, cur, 
-                          stAlive, exitflag, reported, completed, submitted, i, 
+                          exitflag, reported, completed, submitted, lock, i, 
                           snap >>
 
 g_pop == /\ pc[STAGE] = "g_pop"
@@ -526,18 +521,8 @@ g_sleep == /\ pc[STAGE] = "g_sleep"
                            stAlive, exitflag, reported, completed, submitted, 
                            lock, i, snap >>
 
-g_end == /\ pc[STAGE] = "g_end"
-         /\ stAlive' = FALSE
-         /\ IF ~DevExitWindow
-               THEN /\ lock' = "none"
-               ELSE /\ TRUE
-                    /\ lock' = lock
-         /\ pc' = [pc EXCEPT ![STAGE] = "t_idle"]
-         /\ UNCHANGED << pending, staged, moving, running, alive, cur, 
-                         exitflag, reported, completed, submitted, i, snap >>
-
 stage == t_idle \/ t_kind \/ t_wait \/ t_take \/ t_put \/ t_dec \/ g_test
-            \/ g_pop \/ g_put \/ g_more \/ g_sleep \/ g_end
+            \/ g_pop \/ g_put \/ g_more \/ g_sleep
 
 e_loop == /\ pc[ENV] = "e_loop"
           /\ IF completed # Jobs
